@@ -189,9 +189,6 @@ func cmdCheck(args []string) int {
 		inconclusive = append(inconclusive, "ENGINE-MISMATCH (counterexample did not reproduce natively): "+m)
 	}
 	for _, m := range rep.mismatches {
-		if strings.Contains(m, "engine path passes but native run gives") {
-			continue // reported as a violation found by replay
-		}
 		inconclusive = append(inconclusive, "ENGINE-MISMATCH: "+m)
 	}
 
@@ -269,6 +266,9 @@ func cmdCheck(args []string) int {
 	asserts := map[string]int{}
 	var samples []interface{}
 	for _, r := range results {
+		if os.Getenv("GOSX_DEBUG") != "" && r.Paths != len(r.Witnesses) {
+			fmt.Printf("DEBUG %s paths=%d witnesses=%d\n", r.Spec, r.Paths, len(r.Witnesses))
+		}
 		paths += r.Paths
 		trans += r.Transitions
 		oblig += r.Obligations
